@@ -99,6 +99,108 @@ def make_entry_state_table(mpq):
     return table
 
 
+
+def extent_guards_rule(ctx, mpq, pid):
+    """a conformant archive may end with file data (tables first, data last) and a table may end exactly where its container ends:
+    every guard of the read paths that rejects an extent by comparing its *end* (a sum: position + length) with the length of what
+    contains it must accept end == length and reject end > length — whichever way round the comparison is spelled"""
+    R = ctx.rule("%s.extent-guards-accept-an-extent-that-ends-at-the-end" % pid, "in wow-mpq's read paths every error guard comparing a sum (start + length) with a container length is false for end == length and true for end > length", floor=8)
+
+    def summy(e, lets, d=0):
+        e = hirq.strip(e)
+        while e.get("k") in ("cast", "try"):
+            e = hirq.strip(e["e"])
+        if e.get("k") == "bin" and e["op"] == "+":
+            return True
+        if e.get("k") == "mcall" and e["m"] in ("checked_add", "saturating_add", "wrapping_add"):
+            return True
+        if e.get("k") == "mcall" and e["m"] in ("ok_or_else", "ok_or", "unwrap_or", "unwrap", "expect"):
+            return summy(e["recv"], lets, d)
+        if e.get("k") == "path" and e["res"].get("local") in lets and d < 3:
+            return summy(lets[e["res"]["local"]], lets, d + 1)
+        return False
+
+    def leny(e):
+        return bool(re.search(r"\.len\(\)|file_len|_len\b|archive_size|file_size|_size\b|\.size\b|metadata", hirq.render(e)))
+    for f in mpq.fn_list:
+        if f.kind == "Closure" or not f.hir or "::tests::" in f.path or not re.search(r"src/(archive|tables/|patch/|header|special_files|modification)", f.file):
+            continue
+        body = f.hir["body"]
+        lets = {l["pat"]["name"]: l["init"] for l in hirq.find(body, "let") if l["pat"].get("k") == "bind" and l.get("init") is not None}
+        for g in hirq.find(body, "if"):
+            if g["c"].get("k") == "letx" or not any(x.get("k") == "ret" for x in hirq.walk(g["then"])) or "Err" not in hirq.render(g["then"]):
+                continue
+            for c in hirq.walk(g["c"]):
+                if not (c.get("k") == "bin" and c["op"] in ("<", "<=", ">", ">=")):
+                    continue
+                if summy(c["l"], lets) and leny(c["r"]) and not summy(c["r"], lets):
+                    end_left = True
+                elif summy(c["r"], lets) and leny(c["l"]) and not summy(c["l"], lets):
+                    end_left = False
+                else:
+                    continue
+                ctx.saw_fn(f)
+
+                def rej(end, ln, c=c, end_left=end_left):
+                    a, b = (end, ln) if end_left else (ln, end)
+                    return {"<": a < b, "<=": a <= b, ">": a > b, ">=": a >= b}[c["op"]]
+                inst = {"fn": norm(f.path).split("::", 1)[1], "guard": hirq.render(c)[:70]}
+                if rej(5, 5):
+                    ctx.bad(R, "%s|%s|rejects-exact-fit" % (inst["fn"].split("::")[-1], re.sub(r"[^a-z_]", "", hirq.render(c["l"] if end_left else c["r"]))[:30]), "%s:%d" % (f.file, c.get("ln") or 0),
+                            "`%s` is an error also when the extent ends exactly at the end of its container" % inst["guard"],
+                            "data that another implementation legitimately places last (a file at the very end of the archive, a table that fills its block) is refused: reading fails on a conformant archive")
+                elif not rej(6, 5):
+                    ctx.bad(R, "%s|%s|never-rejects" % (inst["fn"].split("::")[-1], re.sub(r"[^a-z_]", "", hirq.render(c["l"] if end_left else c["r"]))[:30]), "%s:%d" % (f.file, c.get("ln") or 0),
+                            "`%s` does not fire for an extent that ends beyond its container" % inst["guard"], "the guard no longer protects the slice / read that follows")
+                else:
+                    ctx.ok(R, inst)
+
+
+
+def no_reads_of_enciphered_buffers_rule(ctx, mpq, pid):
+    """what the writer stores in the block table and the header is plain: once a local buffer has been handed to a cipher routine
+    in place (`encrypt_*(&mut buf, key)`), the writer no longer takes numbers out of it — an element read (`buf[i]`) after the
+    call yields ciphertext.  (The enciphered buffer may still be written out whole or element by element.)"""
+    R = ctx.rule("%s.no-value-taken-from-a-buffer-after-it-was-enciphered" % pid, "in builder.rs / modification.rs: after `encrypt_*(&mut V, ..)` no `V[i]` is read except as the direct argument of a write/append call", floor=3)
+    SINK = re.compile(r"^(write_\w+|write_all|extend_from_slice|push|copy_from_slice|extend)$")
+    for f in mpq.fn_list:
+        if f.kind == "Closure" or not f.hir or "::tests::" in f.path or not f.file.endswith(("builder.rs", "modification.rs")):
+            continue
+        body = f.hir["body"]
+        enc = []          # (local, line)
+        for c in hirq.calls(body):
+            nm = c.get("m") or (c.get("fn") or "").split("::")[-1]
+            if not re.search(r"^encrypt", nm):
+                continue
+            for a in c.get("args") or []:
+                a0 = a
+                if a0.get("k") == "ref" and a0.get("mut"):
+                    b = hirq.strip(a0["e"])
+                    while b.get("k") in ("index", "mcall", "field") and b.get("k") != "path":
+                        b = hirq.strip(b.get("e") or b.get("recv") or {})
+                    if b.get("k") == "path" and "local" in (b.get("res") or {}):
+                        enc.append((b["res"]["local"], c.get("ln") or 0, nm))
+        if not enc:
+            continue
+        ctx.saw_fn(f)
+        # sink arguments (whole nodes) — reads directly inside them are fine
+        sink_args = [a for c in hirq.walk(body) if c.get("k") == "mcall" and SINK.search(c["m"]) for a in c.get("args") or []]
+        sink_ids = {id(x) for a in sink_args for x in hirq.walk(a)}
+        for v, ln, nm in sorted(set(enc)):
+            later = [x for x in hirq.find(body, "index") if hirq.strip(x["e"]).get("k") == "path" and hirq.strip(x["e"])["res"].get("local") == v
+                     and (x.get("ln") or 0) > ln and id(x) not in sink_ids
+                     and not (hirq.strip(x["i"]).get("k") == "struct")]        # (a range slice handed on whole is not a number taken out)
+            # assignments *into* the buffer are not reads
+            stores = {id(hirq.strip(a["l"])) for a in hirq.walk(body) if a.get("k") in ("assign",)}
+            later = [x for x in later if id(x) not in stores]
+            inst = {"fn": norm(f.path).split("::")[-1], "buffer": v, "enciphered_by": nm}
+            if later:
+                ctx.bad(R, "%s|%s|read-after-encipher" % (inst["fn"], v), "%s:%d" % (f.file, later[0].get("ln") or 0), "`%s` is read at line %d, after `%s(&mut %s, ..)` at line %d" % (hirq.render(later[0])[:40], later[0].get("ln") or 0, nm, v, ln),
+                        "the number taken is ciphertext whenever the file is encrypted: sizes / positions derived from it (the block entry's stored size) are garbage to every other reader, while this library's own reader may never consult them")
+            else:
+                ctx.ok(R, inst)
+
+
 def run(ctx):
     prog = ctx.prog
     mpq = prog.crate("wow_mpq")
@@ -475,6 +577,8 @@ def run(ctx):
     key_from_final_flags_rule(ctx, mpq, "C02")
     from .c03 import never_expands_rule
     never_expands_rule(ctx, mpq, "C02")
+    extent_guards_rule(ctx, mpq, "C02")
+    no_reads_of_enciphered_buffers_rule(ctx, mpq, "C02")
 
     # names are hashed byte-wise (interoperability of non-ASCII names); the kernels themselves are decided under C04
     from .c04 import name_hash_iterates_bytes
